@@ -7,6 +7,8 @@ var (
 	ErrInvalidStoreID = errors.New("pd/core: invalid store id")
 	// ErrInvalidRegionID indicates the heartbeat uses an invalid region id.
 	ErrInvalidRegionID = errors.New("pd/core: invalid region id")
+	// ErrInvalidRegionRange indicates the heartbeat's key range is empty or inverted.
+	ErrInvalidRegionRange = errors.New("pd/core: invalid region range")
 	// ErrRegionHeartbeatStale indicates a region heartbeat regressed epoch.
 	ErrRegionHeartbeatStale = errors.New("pd/core: stale region heartbeat epoch")
 	// ErrRegionRangeOverlap indicates the incoming region overlaps another region.
